@@ -160,7 +160,7 @@ def main(chk, replay_file):
     uw = 4
     wl = ["--unwindset", "h_reset_window.0:%d" % (info["RESET_END"] + 2)]
     jobs = [
-        J("reset_window.contract", unit, "h_reset_window", unwind=uw, flags=wl, timeout=1500, stop_on_fail=True, mem_est=6, functions=["hextb run()", "handleSyscall", "Vhex_eval_step"], note="every power-on state x every memory content"),
+        J("reset_window.contract", unit, "h_reset_window", unwind=uw, flags=wl, timeout=1500, stop_on_fail=True, mem_est=6, mem_gb=32, functions=["hextb run()", "handleSyscall", "Vhex_eval_step"], note="every power-on state x every memory content"),
         J("load.determined", unit, "h_load_determined", functions=["hextb load()"], note="every power-on memory x every file: memory after load() is a function of the file"),
         J("load.canary", unit, "h_load_determined", defines=["CANARY"], kind="canary", checks=[]),
         J("reset_window.canary", unit, "h_reset_window", unwind=uw, flags=wl, defines=["CANARY"], kind="canary", checks=[]),
